@@ -14,6 +14,7 @@
 #include <shark/Models/LinearModel.h>
 #include <shark/Models/ConcatenatedModel.h>
 #include <shark/Models/Normalizer.h>
+#include <shark/Models/RBFLayer.h>
 #include <shark/Models/Kernels/KernelExpansion.h>
 #include <shark/Models/Kernels/GaussianRbfKernel.h>
 #include <shark/Models/Kernels/LinearKernel.h>
@@ -208,6 +209,37 @@ static std::string runObj(std::string const& label, bool binary){
 		std::string A = modelBehaviour(a, 3);
 		c18::roundTrip(a, b, binary);
 		return verdict(label, A, modelBehaviour(b, 3));
+	}
+	if(label == "LinearClassifier"){
+		LinearClassifier<> a(Shape(3), 3, true), b(Shape(2), 2, false);
+		a.setParameterVector(ramp(a.numberOfParameters(), -2, 0.75));
+		RealMatrix x = points(5, 3, 2); UIntVector ya, yb;
+		a.eval(x, ya);
+		std::ostringstream A, B; A << "params=" << vecStr(a.parameterVector()) << " eval=";
+		for(std::size_t i = 0; i != ya.size(); ++i) A << ya(i) << ",";
+		c18::roundTrip(a, b, binary);
+		b.eval(x, yb);
+		B << "params=" << vecStr(b.parameterVector()) << " eval=";
+		for(std::size_t i = 0; i != yb.size(); ++i) B << yb(i) << ",";
+		return verdict(label, A.str(), B.str());
+	}
+	if(label == "LinearModel-float"){
+		LinearModel<FloatVector> a(3, 2, true), b(1, 1, false);
+		FloatVector p(a.numberOfParameters()); for(std::size_t i = 0; i != p.size(); ++i) p(i) = float(i) * 0.5f - 1.0f;
+		a.setParameterVector(p);
+		std::string A = "params=" + vecStr(a.parameterVector()) + " in=" + shapeStr(a.inputShape()) + " out=" + shapeStr(a.outputShape());
+		c18::roundTrip(a, b, binary);
+		return verdict(label, A, "params=" + vecStr(b.parameterVector()) + " in=" + shapeStr(b.inputShape()) + " out=" + shapeStr(b.outputShape()));
+	}
+	if(label == "RBFLayer"){
+		RBFLayer a(2, 3), b(1, 1);
+		a.setParameterVector(ramp(a.numberOfParameters(), -1, 0.25));
+		RealMatrix x = points(4, 2, 3), ya, yb;
+		a.eval(x, ya);
+		std::string A = "params=" + vecStr(a.parameterVector()) + " eval=" + matStr(ya);
+		c18::roundTrip(a, b, binary);
+		b.eval(x, yb);
+		return verdict(label, A, "params=" + vecStr(b.parameterVector()) + " eval=" + matStr(yb));
 	}
 	// ---- kernels
 	if(label == "GaussianRbfKernel"){
